@@ -218,7 +218,7 @@ def vercmp_cases(tier, rng, prefix="v"):
     for a in small:
         for b in small:
             add(a, b)
-    n = {"quick": 30000, "search": 60000, "thorough": 600000}[tier]
+    n = {"quick": 100000, "search": 150000, "thorough": 2000000}[tier]
     for _ in range(n):
         a = gen_version(rng)
         b = mutate_version(rng, a) if rng.random() < 0.6 else gen_version(rng)
@@ -254,7 +254,7 @@ def decision_table(tier, rng):
     for shape in [(1,), (2,), (1, 1)]:
         for combo in itertools.product(cells, repeat=sum(shape)):
             out.append(mk(shape, combo, len(out)))
-    n22 = {"quick": 12000, "search": 30000}.get(tier)
+    n22 = {"quick": 40000, "search": 60000}.get(tier)
     if n22 is None:
         for combo in itertools.product(cells, repeat=4):
             out.append(mk((2, 2), combo, len(out)))
@@ -323,7 +323,7 @@ def sat_cases(tier, rng, prefix="s"):
     add([[]], [("a", "1")])                                             # an entry without alternatives: never satisfied
     add([[("a", None)], []], [("a", "1")])
     add([[("a", None), ("a", ("<<", "1"))]], [("a", "1")])
-    n = {"quick": 25000, "search": 60000, "thorough": 300000}[tier]
+    n = {"quick": 80000, "search": 120000, "thorough": 1000000}[tier]
     for i in range(n):
         epochs = rng.random() < 0.25
         struct = gen_struct(rng, epochs=epochs)
@@ -392,7 +392,7 @@ def sat_text_cases(tier, rng, prefix="t"):
     nx = {"quick": 3, "search": 3, "thorough": 4}[tier]
     for s in gen.exhaustive(gen.REL_ALPHABET, nx):
         add(s, base)
-    n = {"quick": 12000, "search": 30000, "thorough": 150000}[tier]
+    n = {"quick": 40000, "search": 60000, "thorough": 500000}[tier]
     for _ in range(n):
         t, entries = gen.gen_rel_field(rng, substvars=rng.random() < 0.3, empty_entries=rng.random() < 0.3)
         asg = [kv for kv in base if rng.random() < 0.6]
